@@ -35,7 +35,9 @@ ALPHA = [{"op": "set", "k": "a", "v": b"1", "nr": False}, {"op": "get", "k": "a"
          {"op": "get", "k": "bad key"}]
 MORE = [{"op": "touch", "k": "a", "e": 5, "nr": False}, {"op": "gets", "k": "a"}, {"op": "gat", "k": "a", "e": 5}, {"op": "gats", "k": "a", "e": 5}, {"op": "gets_many", "ks": ["a"]},
         {"op": "delete_many", "ks": ["a", "b"], "nr": False}, {"op": "version"}, {"op": "flush_all", "d": 0, "nr": False}, {"op": "cas", "k": "a", "v": b"1", "cas": b"1", "nr": False},
-        {"op": "append", "k": "a", "v": b"1", "nr": False}, {"op": "set_many", "items": [("a", b"1"), ("b", b"2")], "nr": False}, {"op": "add", "k": "a", "v": b"1", "nr": False}]
+        {"op": "append", "k": "a", "v": b"1", "nr": False}, {"op": "set_many", "items": [("a", b"1"), ("b", b"2")], "nr": False}, {"op": "add", "k": "a", "v": b"1", "nr": False},
+        # the mapping protocol: pc[key] of an absent key ends in KeyError - an answer about the key, not a failure of the connection
+        {"op": "getitem", "k": "a"}, {"op": "getitem", "k": "absent"}, {"op": "setitem", "k": "a", "v": b"5"}, {"op": "delitem", "k": "a"}, {"op": "delitem", "k": "absent"}]
 
 
 def run_seq(ctx, PooledClient, seq, cfg, rng):
@@ -90,6 +92,7 @@ def run_seq(ctx, PooledClient, seq, cfg, rng):
         fin = CLOCK[0]               # the clock advanced iff the request reached the (slow) server
         L = W.ledger[nled:]
         closed_before = set(closed_conns)
+        prev_ok = last_ok
         connected_now = False
         for i, e in enumerate(L):
             if e[0] == "connect" and not (i + 1 < len(L) and L[i + 1][0] == "fault" and L[i + 1][2][0] == "connect"):
@@ -111,6 +114,12 @@ def run_seq(ctx, PooledClient, seq, cfg, rng):
             return None
         raised = bool(rec["raised"])
         is_quit = call["op"] == "quit"
+        # a connection is closed for a reason: the call on it failed, quit(), or it had idled out when the pool looked at it
+        for c_closed in sorted(closed_conns - closed_before):
+            expired = idle != 0 and prev_ok is not None and prev_ok[0] == c_closed and now - prev_ok[1] > idle
+            if not (raised or is_quit or expired):
+                ctx.violation("a healthy connection was closed although the call on it did not fail (and it had not idled out)", dict(case, conn=c_closed), tags=["healthy-closed"])
+                return None
         if io is not None and io in closed_conns - ({io} if (raised or is_quit) else set()) and not (raised or is_quit):
             ctx.violation("a closed connection was used again", dict(case, conn=io), tags=["failed-reused"])
             return None
@@ -140,7 +149,8 @@ def run_seq(ctx, PooledClient, seq, cfg, rng):
         elif not touched:
             body = "rej"
         else:
-            swallowed = not r.startswith("exc:")
+            # (pc[key]: the inner get's failure is swallowed under ignore_exc and the lookup then ends in KeyError like any miss)
+            swallowed = not r.startswith("exc:") or (call["op"] == "getitem" and r == "exc:KeyError")
             body = ("swal" if swallowed else "fail") + ("1" if connected_now else "0")
         model_evs.append(f"{round((now - 1000) * SCALE)}:{round((fin - 1000) * SCALE)}:{body}")
         obs.append(f"{rec['client'] if rec['client'] is not None else '-'}/{io if io is not None else '-'}")
@@ -324,6 +334,8 @@ def main(argv):
     pmod = c08_mod.load_pool()
     overlap_sets = [(["useLong"], ["useOk"]), (["useLong"], ["useLong"]), (["useOk", "useLong"], ["useOk"]), (["useLong", "useOk"], ["tick", "useOk"]),
                     (["useLong"], ["useFail"]), (["useOk", "tick", "useLong"], ["useOk"]),
+                    # the clock moves while a caller waits for the pool (another thread's work, a slow close under the lock)
+                    (["useOk", "useOk"], ["tick"]), (["useOk", "useOk"], ["tick", "useOk"]), (["useOk", "useLong", "useOk"], ["tick"]),
                     # close() of the pooled client (ObjectPool.clear) by one caller while another one's call is in flight
                     (["useOk"], ["clear"]), (["useLong"], ["clear"]), (["useOk", "useOk"], ["clear"]), (["useOk"], ["clear", "useOk"])]
     #      Every interleaved trace, recorded WITH the clock (every advance `tick d`, every value the pool's clock returned `clock v`, every
@@ -348,6 +360,8 @@ def main(argv):
                     tcases.append(case)
                 for v_ in sched_.early_expiry:
                     ctx.violation("overlapping callers: a healthy connection was closed and reopened instead of reused: " + v_, case, tags=["overlap", "early-expiry"])
+                for v_ in getattr(sched_, "late_expiry", ()):
+                    ctx.violation("overlapping callers: a connection idle for longer than pool_idle_timeout was reused instead of closed: " + v_, case, tags=["overlap", "late-expiry"])
                 for v_ in viol_:
                     if "still checked out" in v_ or "deadlock" in v_ or "internal error" in v_:
                         ctx.violation("overlapping callers: " + v_, case, tags=["overlap"])
